@@ -92,6 +92,8 @@ class V2(object):
         ctx.data["frozen_maps"] = [("self.metrics", f["metrics"])]
         o.v2view = self
         o.written = set()
+        o.assumed_state = True
+        o.assumed_fields = set(o.fields)
         return o
 
     def field_value(self, n):
